@@ -120,7 +120,7 @@ func (p *c09) Init(tier string) {
 	p.nBytes = len(p.alpha)*len(p.alpha) + 1
 }
 
-func (p *c09) NumCases() int { return p.nGram + 3 + p.nBytes + 1 }
+func (p *c09) NumCases() int { return p.nGram + 3 + p.nBytes + 2 }
 
 // selectors of grammar case i: first step s1 = menu[i / (n+1)], second step s2 = menu[i % (n+1) - 1]
 // (none when 0), then every third step from the (tier-dependent) menu plus the 2-step selector itself.
@@ -147,6 +147,9 @@ func (p *c09) Describe(i int) any {
 	}
 	if i == p.nGram+3+p.nBytes {
 		return map[string]any{"kind": "cache saturation: all byte strings of length <= 3 (thorough 4) as selectors in one process (4368 / 69904 distinct cache entries), then fresh spellings of 7 grammar selectors must still evaluate per the reference"}
+	}
+	if i == p.nGram+3+p.nBytes+1 {
+		return map[string]any{"kind": "function registry: fn=> applies the function registered under the name at evaluation time - three functions registered in turn under one name (two rounds) x three selector texts; a name registered after a selector using it was rejected"}
 	}
 	return map[string]any{"kind": fmt.Sprintf("all byte strings of length <= %d over %q with this 2-byte prefix, as selectors on 3 documents: value or error, never a panic; document unchanged", p.blen, string(p.alpha)), "prefix_index": i - p.nGram - 3}
 }
@@ -321,10 +324,61 @@ func (p *c09) RunCase(i int) *core.CaseResult {
 		}
 	case i < p.nGram+3+p.nBytes:
 		p.runBytes(r, i-p.nGram-3)
-	default:
+	case i == p.nGram+3+p.nBytes:
 		p.runSaturation(r)
+	default:
+		p.runRegistry(r)
 	}
 	return r
+}
+
+// runRegistry: `fn=>` applies the function that is registered under the name when the selector is
+// evaluated: registering another function under a name already used by evaluated selectors (and
+// registering a name after a selector using it has failed) takes effect for the same selector text.
+func (p *c09) runRegistry(r *core.CaseResult) {
+	doc := func() any { return map[string]any{"a": []any{1.0, 2.0, 3.0}, "b": map[string]any{"a": []any{4.0}}} }
+	first := func(v any) (any, error) {
+		if a, ok := v.([]any); ok && len(a) > 0 {
+			return a[0], nil
+		}
+		return nil, nil
+	}
+	last := func(v any) (any, error) {
+		if a, ok := v.([]any); ok && len(a) > 0 {
+			return a[len(a)-1], nil
+		}
+		return nil, nil
+	}
+	count := func(v any) (any, error) {
+		a, _ := v.([]any)
+		return float64(len(a)), nil
+	}
+	sels := []string{"hswap=>a", "hswap=>b.a", "hswap=>a[(0:2)]"}
+	refs := [][]float64{{1, 4, 1}, {3, 4, 2}, {3, 1, 2}} // first, last, count
+	for round := 0; round < 2; round++ {
+		for fi, f := range []func(any) (any, error){first, last, count} {
+			genql.RegisterTopLevelFunction("hswap", f)
+			for si, sel := range sels {
+				got, err, pan := gq.Reader(doc(), sel)
+				r.Execs++
+				if want := gq.Render(refs[fi][si]); pan != "" || err != nil || gq.Render(got) != want {
+					r.Fail("C09|fn|re-registered-function-not-applied", fmt.Sprintf("selector %q after registering function #%d under the name (round %d): returned %s (%v %s), the registered function gives %s", sel, fi, round, gq.Render(got), err, pan, want), map[string]any{"selector": sel, "round": round, "function": fi})
+					return
+				}
+			}
+		}
+	}
+	// a name that is registered only after a selector using it has been rejected
+	if _, err, pan := gq.Reader(doc(), "hlate=>a"); err == nil || pan != "" {
+		r.Fail("C09|fn|unknown-function-accepted", fmt.Sprintf("hlate=>a with no such function: err=%v panic=%s", err, pan), nil)
+		return
+	}
+	genql.RegisterTopLevelFunction("hlate", count)
+	if got, err, pan := gq.Reader(doc(), "hlate=>a"); err != nil || pan != "" || gq.Render(got) != "3" {
+		r.Fail("C09|fn|late-registration-not-seen", fmt.Sprintf("hlate=>a after registering hlate: %s (%v %s), want 3", gq.Render(got), err, pan), nil)
+		return
+	}
+	r.Nontrivial = true
 }
 
 // runSaturation: the selector cache is process-wide and never evicted.  After several thousand
